@@ -15,6 +15,7 @@ import signal
 import struct
 
 import common
+import vloop
 
 # ------------------------------------------------------------------------------- plumbing
 
@@ -26,7 +27,7 @@ class Hang(BaseException):
 class time_limit:
     """SIGALRM guard: the receive loops are pure Python, so a runaway loop is interrupted."""
 
-    def __init__(self, seconds=4):
+    def __init__(self, seconds=4.0):
         self.seconds = seconds
 
     def _fire(self, *_):
@@ -858,6 +859,7 @@ def gen_cases(ctx):
         c["what"] = what or "%s messages of shapes %s%s" % (kind, picks, " encrypted blocks %s" % (blocks or "1024-split") if enc else "")
         c["bad_first"] = [b.encode() for b in bad_first]
         c["expect"] = len(msgs)
+        c["frames"] = list(msgs)
         return c
 
     pick_sets = [[0], [1, 2], [3, 0, 4], [5, 6], [7, 8, 9], [2, 2, 2], [4, 3]]
@@ -1088,6 +1090,189 @@ def judge_replay(case, cuts):
     return errs, wo, o
 
 
+
+# ------------------------------------------------------------------------------- read boundaries and time
+# HttpConnection is the one receive loop that shares its object with callers that can give up:
+# send_and_receive waits for the response with a timeout.  A read boundary inside a response may
+# therefore coincide with the waiting caller timing out before the rest arrives.  The bytes are
+# the same, so the messages parsed from them must be the same as for the unsplit stream, and an
+# exchange started after the late tail has arrived must still get its own response.
+#
+# One history = one exchange per response of a valid stream (the real send_and_receive under the
+# virtual-time loop); response `victim` arrives in two reads, cut at `cut`, with the caller's
+# timeout expiring in between.  request_first=False: the next request is issued after the tail
+# arrived (accounting is judged); True: it is issued before the tail (the late response is then
+# handed to that request - the known C03 finding - so only the parsed sequence is judged).
+
+TIMEOUT = 1.0
+
+
+async def timed_history(case, bounds, victim, cut, request_first):
+    from pyatv.support.http import HttpConnection
+    d = HttpClientDriver(dict(case, pending=0))
+    conn = d.conn
+    k = len(bounds)
+    starts = [0] + bounds[:-1]
+    parsed = []
+    outcomes = ["pending"] * k
+    raised = [None]
+
+    def feed(chunk):
+        """One data_received call; every response it parses is recorded in parse order: first
+        the callers waiting (oldest first), then catch-all entries appended behind them, which
+        receive what the connection would otherwise drop for lack of a request."""
+        waiting = list(conn._requests)
+        extra = [HttpConnection.PendingRequest(event=asyncio.Event()) for _ in range(8)]
+        for e in extra:
+            conn._requests.appendleft(e)
+        try:
+            conn.data_received(chunk)
+        except Exception as ex:
+            raised[0] = type(ex).__name__
+        for p in reversed(waiting):
+            if p.response is not None:
+                parsed.append(canon_http(p.response, "resp"))
+        for e in extra:
+            if e.response is not None:
+                parsed.append(canon_http(e.response, "resp"))
+            elif e in conn._requests:
+                conn._requests.remove(e)
+
+    async def client():
+        for i in range(k):
+            try:
+                r = await conn.send_and_receive("GET", "/%d" % i, allow_error=True,
+                                                timeout=TIMEOUT if i == victim else 50)
+                outcomes[i] = canon_http(r, "resp")
+            except TimeoutError:
+                outcomes[i] = "timeout"
+                if not request_first:
+                    await asyncio.sleep(3 * TIMEOUT)
+            except Exception as ex:
+                outcomes[i] = "raised:" + type(ex).__name__
+
+    task = asyncio.ensure_future(client())
+    for i in range(k):
+        await asyncio.sleep(0.01)
+        if i == victim:
+            feed(case["stream"][starts[i]:cut])
+            if raised[0] is None:
+                await asyncio.sleep(2 * TIMEOUT)
+                feed(case["stream"][cut:bounds[i]])
+            if not request_first:
+                await asyncio.sleep(3 * TIMEOUT)
+        else:
+            feed(case["stream"][starts[i]:bounds[i]])
+        if raised[0] is not None:      # asyncio closes the transport
+            break
+    await asyncio.sleep(0.01)
+    task.cancel()
+    try:
+        await task
+    except BaseException:
+        pass
+    o = d.obs()
+    o["msgs"] = parsed
+    o.pop("events_set", None)
+    o["raised"] = raised[0]
+    return o, outcomes, d.declog
+
+
+async def timed_batch(case, bounds, plans):
+    return [await timed_history(case, bounds, v, c, rf) for (v, c, rf) in plans]
+
+
+def timed_errors(case, whole, o, outcomes, victim, request_first):
+    """The property judged on one timed history; `whole` = the unsplit stream on a fresh connection."""
+    if o["raised"] is not None:
+        return ["split-raises-after-timeout"]
+    want = dict(whole)
+    got = dict(o)
+    for x in (want, got):
+        x.pop("events_set", None)
+    if json.dumps(got, sort_keys=True) != json.dumps(want, sort_keys=True):
+        return ["split-changes-messages-after-timeout"]
+    if not request_first:
+        expect = [whole["msgs"][i] if i != victim else "timeout" for i in range(len(outcomes))]
+        if outcomes != expect:
+            return ["timeout-changes-later-responses"]
+    return []
+
+
+def timed_case_of(case, rng):
+    """Exchange-aligned variant of an HTTP client case: for the encrypted connection every response
+    is encrypted on its own, so that a response boundary is also a block boundary."""
+    frames = case["frames"]
+    if not case["enc"]:
+        return case, list(itertools.accumulate(len(m) for m in frames))
+    c = dict(case)
+    peer = peer_session(c)
+    parts = [hap_blocks(peer, m, [7, 30, 1024] if i % 2 else None) for i, m in enumerate(frames)]
+    c["stream"] = b"".join(parts)
+    c["what"] = case["what"] + " (one HAP block sequence per response)"
+    return c, list(itertools.accumulate(len(x) for x in parts))
+
+
+def judge_timed(ctx, case, coq):
+    rng = ctx.rng
+    tcase, bounds = timed_case_of(case, rng)
+    starts = [0] + bounds[:-1]
+    plans = []
+    for v in range(len(bounds)):
+        a, b = starts[v], bounds[v]
+        if b - a < 2:
+            continue
+        if ctx.thorough or b - a <= 90:
+            pos = set(range(a + 1, b))
+        else:
+            pos = set(range(a + 1, a + 25)) | set(range(b - 24, b)) | {rng.randrange(a + 1, b) for _ in range(25)}
+            sep = tcase["stream"].find(b"\r\n\r\n", a, b)
+            if sep >= 0:
+                pos |= {q for q in range(sep - 4, sep + 9) if a < q < b}
+        for c in sorted(pos):
+            plans.append((v, c, False))
+            plans.append((v, c, True))
+    if not plans:
+        return 0
+    whole, _, _ = run_seg(dict(tcase, pending=len(bounds) + 2), [])
+    whole.pop("events_set", None)
+    try:
+        with time_limit(120):
+            results = vloop.run(timed_batch, tcase, bounds, plans)
+    except Hang:
+        ctx.violation("C02:http:hangs", "a timed history does not return (%s)" % tcase["what"], replay_of(tcase, []))
+        return 0
+    worst = {}
+    groups = {}
+    declog_all = []
+    for (v, c, rf), (o, outcomes, declog) in zip(plans, results):
+        for e in declog:
+            if e not in declog_all:
+                declog_all.append(e)
+        seg = sorted(set(bounds[:-1]) | {c})
+        groups.setdefault(json.dumps(o, sort_keys=True), (o, []))[1].append(seg)
+        for k in timed_errors(tcase, whole, o, outcomes, v, rf):
+            if k not in worst:
+                worst[k] = (v, c, rf, o, outcomes)
+    for k, (v, c, rf, o, outcomes) in sorted(worst.items()):
+        r = replay_of(tcase, sorted(set(bounds[:-1]) | {c}))
+        r["timed"] = {"bounds": bounds, "victim": v, "cut": c, "request_first": rf}
+        r["observed"] = {"parsed": len(o["msgs"]), "raised": o["raised"], "rest": o["rest"][:80], "outcomes": [x if isinstance(x, str) else "response" for x in outcomes]}
+        ctx.violation("C02:http:" + k,
+                      "response %d of a valid stream (%s) cut at byte %d with the waiting request timing out between the two reads, "
+                      "next request issued %s the late tail: %s" % (v, tcase["what"], c, "before" if rf else "after", k), r)
+    ctx.count("http%s:timed-histories" % ("+enc" if case["enc"] else ""), len(plans))
+    ctx.evaluations += len(plans)
+    for o, seglists in list(groups.values())[:8]:
+        uniq = []
+        for sg in seglists:
+            if sg not in uniq:
+                uniq.append(sg)
+        g, term = coq_case(tcase, o, declog_all, csegspec(uniq[:150], False, False, False))
+        coq.add(g, term, {"conn": "http", "what": tcase["what"] + " [timed histories]", "stream": tcase["stream"].hex(), "impl": o, "cuts": uniq[:5]})
+    return len(plans)
+
+
 # ------------------------------------------------------------------------------- entry points
 
 def run(ctx):
@@ -1118,6 +1303,8 @@ def run(ctx):
     total = 0
     for case in cases:
         total += judge(ctx, case, coq)
+        if case["conn"] == "http" and case["valid"] and case.get("frames"):
+            total += judge_timed(ctx, case, coq)
     ctx.note("implementation runs: %d segmentations of %d streams" % (total, len(cases)))
     mism = coq.run(timeout=1500)
     for g, meta in mism:
@@ -1142,6 +1329,16 @@ def replay(ctx, path):
     d = json.load(open(path))
     r = d.get("replay") or d.get("case") or d
     case = case_of_replay(r)
+    if r.get("timed"):
+        t = r["timed"]
+        whole, _, _ = run_seg(dict(case, pending=len(t["bounds"]) + 2, probe=b""), [])
+        whole.pop("events_set", None)
+        o, outcomes, _ = vloop.run(timed_history, case, t["bounds"], t["victim"], t["cut"], t["request_first"])
+        errs = timed_errors(case, whole, o, outcomes, t["victim"], t["request_first"])
+        print("conn=http timed history %s\n unsplit: %d messages, rest=%s\n timed:   %d messages, raised=%s, rest=%s\n request outcomes=%s\n property-errors=%s" % (
+            t, len(whole["msgs"]), whole["rest"][:60], len(o["msgs"]), o["raised"], o["rest"][:60],
+            [x if isinstance(x, str) else "response" for x in outcomes], errs))
+        return 1 if errs else 0
     errs, wo, o = judge_replay(case, r["cuts"])
     print("conn=%s cuts=%s\n unsplit: %s\n split:   %s\n property-errors=%s" % (
         case["conn"], r["cuts"], json.dumps(wo)[:600], json.dumps(o)[:600], errs))
